@@ -372,6 +372,18 @@ def stepLine (trace : Bool) (st : St) (tok : List String) (_line : String) (impl
     | some d =>
       ({ st with h := hstep st.nc st.h (.op (.advance d)), spec := { st.spec with now := st.spec.now + d } }, "ok", "ok")
     | none => (st, "bad-op", "ok")
+  | "crashat" :: _ :: rest =>
+    -- the process dies inside the op (which prefix of its file-system operations happened is
+    -- settled by the next `ls`); memory is lost
+    if !st.inited || !st.h.up then (st, "no-instance", "ok") else
+    let ops? : Option (List FsOp) :=
+      if rest == ["restart"] then some (ctorOps st.nc.store st.h.w.sys.fs)
+      else (parseOp st rest none).map (fsOpsOf st.nc st.h.w)
+    match ops? with
+    | none => (st, "bad-op", "ok")
+    | some ops =>
+      ({ st with h := { st.h with up := false, w := { st.h.w with sys := { st.h.w.sys with recs := [] } } },
+                 spec := { st.spec with s := [] }, pending := some ⟨st.h.w.sys.fs, ops⟩ }, "crashed", "ok")
   | "crash" :: rest =>
     if !st.inited || !st.h.up then (st, "no-instance", "ok") else
     let completed := match impl with | some l => l.startsWith "fsops=" | none => true
